@@ -805,8 +805,9 @@ Qed.
 Lemma zip_chunks_exact_in d : forall rs cs x,
   In x (flat_map fst (zip_chunks_exact d cs rs)) -> In x cs.
 Proof.
+  intros rs cs x. rewrite zip_chunks_exact_ref_eq. revert cs x.
   induction rs as [|r rs IH]; intros cs x H; [contradiction|].
-  cbn [zip_chunks_exact] in H. destruct (N.of_nat (length cs) <? d); [contradiction|].
+  cbn [zip_chunks_exact_ref] in H. destruct (N.of_nat (length cs) <? d); [contradiction|].
   cbn [flat_map fst] in H. apply in_app_or in H. rewrite <- (firstn_skipn (N.to_nat d) cs).
   apply in_or_app. destruct H as [H|H]; [left; exact H|right; now apply IH].
 Qed.
